@@ -464,6 +464,8 @@ def run(tier, seed, jobs=16):
         sys.setrecursionlimit(5000)
     shards, info = shards_for(tier, seed)
     acc = common.merge(common.pmap(run_shard, shards, jobs))
+    from . import ctx_contracts as _ctx      # run-time contracts of PrettyContext (exhaustive over field subsets)
+    _ctx.check(acc)
     max_k = 3 if tier == 'quick' else 4
     return common.report(
         acc,
@@ -476,6 +478,9 @@ def run(tier, seed, jobs=16):
 
 
 def replay(case):
+    if isinstance(case, dict) and case.get('check') == 'ctx':
+        from . import ctx_contracts as _ctx
+        return _ctx.replay(case)
     if sys.getrecursionlimit() < 5000:
         sys.setrecursionlimit(5000)
     vs = check_case(case)
